@@ -148,7 +148,7 @@ def to_proto_value(v):
 def to_proto_script(s):
     if s[0] == "ret": return "r" + to_proto_value(s[1])
     if s[0] == "arg": return "a%d." % s[1]
-    if s[0] == "fail": return "e"
+    if s[0] == "fail": return "e" if len(s) < 2 else "E%d" % s[1]
     if s[0] == "panic": return "p"
     if s[0] == "count": return "k[" + ",".join(to_proto_script(x) for x in s[1]) + "]"
     raise ValueError(s)
